@@ -390,6 +390,68 @@ def veq(v, x):
     return Q._term(v) == Q._term(w)
 
 
+def schema_tables():
+    """{table: ([(column, declaration text)], [primary key columns])} read from the real constants.SCHEMA"""
+    import re
+    out = {}
+    for m in re.finditer(r"CREATE TABLE (\w+)\s*\((.*?)\);", constants.SCHEMA, re.S | re.I):
+        cols, pk = [], []
+        for part in re.split(r",(?![^()]*\))", m.group(2)):
+            part = " ".join(part.split())
+            if not part:
+                continue
+            k = re.match(r"(?i)primary key\s*\(([^)]*)\)$", part)
+            if k:
+                pk = [c.strip() for c in k.group(1).split(",")]
+            else:
+                name, _, decl = part.partition(" ")
+                cols.append((name, decl.strip()))
+        out[m.group(1)] = (cols, pk)
+    return out
+
+
+EXPECTED_SCHEMA = {
+    "features": ([(c, "int" if c in ("start", "end", "bin") else "text") for c in Q.FEATURE_COLS], ["id"]),
+    "relations": ([("parent", "text"), ("child", "text"), ("level", "int")], ["parent", "child", "level"]),
+    "meta": ([("dialect", "text"), ("version", "text")], []),
+    "directives": ([("directive", "text")], []),
+    "autoincrements": ([("base", "text"), ("n", "int")], ["base"]),
+    "duplicates": ([("idspecid", "text"), ("newid", "text")], ["newid"]),
+}
+
+
+def prove_plain_schema(U, prefix, tables):
+    """The SQL model's standing assumption about the tables (A-S1), checked against the real SCHEMA text on every run: each
+    column is declared `<name> text` or `<name> int` and nothing more - no COLLATE (so `=`, DISTINCT, ORDER BY and the
+    primary key compare text exactly, byte for byte), no DEFAULT / CHECK / UNIQUE / generated column - with the stated key."""
+    got = schema_tables()
+    for t in tables:
+        have = got.get(t)
+        want = EXPECTED_SCHEMA[t]
+        ok = have is not None and [(n, d.lower()) for n, d in have[0]] == want[0] and have[1] == want[1]
+
+        def replay(m, t=t):
+            import sqlite3
+            conn = sqlite3.connect(":memory:")
+            conn.executescript(constants.SCHEMA)
+            cols = [r[1] for r in conn.execute("PRAGMA table_info(%s)" % t)]
+            textcol = [c for c, d in EXPECTED_SCHEMA[t][0] if d == "text"][0]
+            vals = lambda v: [v if c == textcol else (None if c not in EXPECTED_SCHEMA[t][1] else ("k" if dict(EXPECTED_SCHEMA[t][0])[c] == "text" else 1)) for c in cols]
+            obs = []
+            for v in ("Abc1", "ABC1", "abc1 "):
+                try:
+                    conn.execute("INSERT INTO %s VALUES (%s)" % (t, ",".join("?" * len(cols))), vals(v))
+                    obs.append("stored %r" % v)
+                except sqlite3.Error as e:
+                    obs.append("%r refused: %s" % (v, e))
+            n = conn.execute("SELECT count() FROM %s WHERE %s = ?" % (t, textcol), ("abc1",)).fetchone()[0]
+            exp = ["stored 'Abc1'", "stored 'ABC1'", "stored 'abc1 '"]
+            return {"inputs": {"table": t, "column": textcol, "values": ["Abc1", "ABC1", "abc1 "], "then": "count WHERE %s = 'abc1'" % textcol}, "expected": [exp, 0],
+                    "observed": [obs, n], "violates": obs != exp or n != 0}
+        U.prove("%s.schema.plain[%s]" % (prefix, t), "table %s: columns %s declared plain text/int (no COLLATE, DEFAULT, CHECK, UNIQUE), primary key %r - text is compared exactly" % (t, [n for n, _ in want[0]], want[1]),
+                [], z3.BoolVal(bool(ok)), {}, replay=replay)
+
+
 def primary_key(table):
     """PRIMARY KEY columns of a table, read from the real constants.SCHEMA"""
     import re
@@ -573,6 +635,19 @@ def unit_gff_finish(U, prefix="C02", only_level1=True):
             except Exception as e:
                 return {"observed": "raised %r" % (e,), "violates": True}
             exp = expected_gff3_relations(feats)
+            if rel == exp:
+                # the same step run AGAIN on a database that already holds level-2 rows (FeatureDB.update): a chain of depth 4
+                chain = [mk("g", "gene"), mk("m", "mRNA", ["g"]), mk("e", "exon", ["m"]), mk("p", "part", ["e"])]
+                later = [mk("z", "gene")]
+                try:
+                    db2 = gffutils.create_db(chain, ":memory:")
+                    db2.update(later, make_backup=False)
+                    rel2 = {(r["parent"], r["child"], r["level"]) for r in db2.execute("SELECT parent, child, level FROM relations")}
+                except Exception as e:
+                    return {"inputs": [str(f) for f in chain] + ["update:"] + [str(f) for f in later], "observed": "raised %r" % (e,), "violates": True}
+                exp2 = expected_gff3_relations(chain + later)
+                if rel2 != exp2:
+                    return {"inputs": [str(f) for f in chain] + ["then update() with:"] + [str(f) for f in later], "expected": sorted(exp2), "observed": sorted(rel2), "violates": True}
             return {"inputs": [str(f) for f in feats], "expected": sorted(exp), "observed": sorted(rel), "violates": rel != exp}
         for p in U.explore(run, it):
             if p.kind != "return":
@@ -610,16 +685,35 @@ def unit_gff_finish(U, prefix="C02", only_level1=True):
                 ex = z3.Exists([r2["parent"].term, r2["child"].term, r2["level"].term], inner)
                 return Q.TV(ex, z3.Not(ex))
             try:
-                cond, env = Q.where_predicate(si2.where, {"relations": r1}, sel[1].args, sel[1].stmt.holes, subselect=subselect)
+                # the rows the query ranges over: its source and every joined table, each an arbitrary member of Rel (a table
+                # may occur several times under aliases: a self-join); sub-selects in the WHERE are handled by `subselect`
+                if si2.source[0] != "table" or si2.source[1] != "relations" or any(jt != "relations" for jt, _ in si2.joins):
+                    raise Undecided("grandchild query over %r / joins %r" % (si2.source, [jt for jt, _ in si2.joins]))
+                aliases = [si2.source[2]] + list(si2.join_aliases)
+                if len(set(aliases)) != len(aliases):
+                    raise Q.SQLSyntax("ambiguous table name in a self-join without aliases")
+                qrows = {}
+                for k, al in enumerate(aliases):
+                    qrows[al] = r1 if k == 0 else Q.sym_row("relations", "rj%d" % k, nullable=())[0]
+                env = Q.RowEnv(qrows, sel[1].args, sel[1].stmt.holes)
+                env.subselect = subselect
+                parts = [Rel(r["parent"].term, r["child"].term, r["level"].term) for r in qrows.values()]
+                for jt, on in si2.joins:
+                    parts.append(Q._zb(Q.as_tv(Q.eval_expr(on, env)).t))
+                if si2.where is not None:
+                    parts.append(Q._zb(Q.as_tv(Q.eval_expr(si2.where, env)).t))
+                if len(si2.columns) != 1:
+                    raise Undecided("grandchild query projects %d columns" % len(si2.columns))
+                projv = Q.eval_expr(si2.columns[0][0], env)
                 lock = env.pos == len(env.args)
             except (Q.SQLArgs, Q.SQLSyntax) as ex:
                 U.prove(base + ".nested.lockstep#p%d" % p.index, "valid SQL, arguments in lock-step (%s)" % ex, [], z3.BoolVal(False), {}, replay=replay)
                 continue
-            proj = Q.select_cols(si2)
+            proj = [Q.expr_text(si2.columns[0][0]).split(".")[-1]]
             b, l1, l2 = z3.String("b"), z3.Int("l1"), z3.Int("l2")
-            # selected(c) := exists r1 in Rel: r1.child == c and where(r1)
-            selected = z3.Exists([r1["parent"].term, r1["child"].term, r1["level"].term],
-                                 z3.And(Rel(r1["parent"].term, r1["child"].term, r1["level"].term), Q._zb(cond), r1["child"].term == c_v))
+            # selected(c) := exists rows in Rel (one per table occurrence): ON and WHERE hold and the projected column == c
+            qvars = [r[c_].term for r in qrows.values() for c_ in ("parent", "child", "level")]
+            selected = z3.Exists(qvars, z3.And(*(parts + [Q._term(projv) == c_v])))
             spec = z3.Exists([b], z3.And(Rel(a_v, b, 1), Rel(b, c_v, 1)))
             pp, cc, ll = z3.String("pp"), z3.String("cc"), z3.Int("ll")
             lvl1 = [z3.ForAll([pp, cc, ll], z3.Implies(Rel(pp, cc, ll), ll == 1))] if only_level1 else []
@@ -694,6 +788,11 @@ def all_dags(n):
         yield [(c, p) for k, (c, p) in enumerate(pairs) if mask >> k & 1]
 
 
+def _copyf(f):
+    return F.Feature(seqid=f.seqid, source=f.source, featuretype=f.featuretype, start=f.start, end=f.end, score=f.score, strand=f.strand, frame=f.frame,
+                     attributes={k: list(v) for k, v in f.attributes.items()})
+
+
 def unit_bounded_dags(U):
     """Bounded validation through the real create_db: all DAGs on <= N nodes x all line orders
     (+ a dangling parent), children/parents at levels 1, 2, None vs the statement."""
@@ -724,6 +823,17 @@ def unit_bounded_dags(U):
                 cases += 1
                 try:
                     db, rel = native_gff3_relations(feats)
+                    if (n, edges) in extra and perm == tuple(range(n)):
+                        # the same lines arriving in two portions (create_db, then update on the returned object): same graph
+                        for cut in range(1, n):
+                            cases += 1
+                            db_s = gffutils.create_db([_copyf(f) for f in feats[:cut]], ":memory:")
+                            db_s.update([_copyf(f) for f in feats[cut:]], make_backup=False)
+                            db_s.update([F.Feature(seqid="c", featuretype="other", start=1, end=2, attributes={"ID": ["unrelated"]})], make_backup=False)
+                            rel_s = {(r["parent"], r["child"], r["level"]) for r in db_s.execute("SELECT parent, child, level FROM relations")}
+                            if rel_s != expected_gff3_relations(feats):
+                                fails.append({"case": {"edges": edges, "create_db": [str(f) for f in feats[:cut]], "then update": [str(f) for f in feats[cut:]], "then": "update([an unrelated feature])"},
+                                              "expected": sorted(expected_gff3_relations(feats)), "observed": sorted(rel_s)})
                 except Exception as e:
                     fails.append({"case": {"edges": edges, "order": perm}, "expected": "no exception", "observed": repr(e)})
                     continue
